@@ -114,7 +114,7 @@ fn cases(dir: &str) -> Vec<Case> {
     out
 }
 
-fn mask_times(s: &str) -> String {
+pub fn mask_times(s: &str) -> String {
     // JUnit elapsed-time attributes: time="123"
     let mut out = String::with_capacity(s.len());
     let mut rest = s;
